@@ -197,7 +197,8 @@ func merge[EntityT entity.Interface](def Definition, wrapper func(e *Entity) Ent
 	// an empty operationPack.
 	// First step is to collect those clocks.
 
-	localEntity, err := read[EntityT](def, wrapper, repo, resolvers, localRef)
+	// reading the local entity witnesses its clocks
+	_, err = read[EntityT](def, wrapper, repo, resolvers, localRef)
 	if err != nil {
 		return entity.NewMergeError(err, id)
 	}
@@ -225,10 +226,14 @@ func merge[EntityT entity.Interface](def Definition, wrapper func(e *Entity) Ent
 		return entity.NewMergeError(err, id)
 	}
 
-	// Note: we don't need to update localEntity state (lastCommit, operations...) as we
-	// discard it entirely anyway.
+	// read back the merged entity, so that the result handed to the caller holds the operations
+	// of both branches and points to the merge commit
+	mergedEntity, err := read[EntityT](def, wrapper, repo, resolvers, localRef)
+	if err != nil {
+		return entity.NewMergeError(err, id)
+	}
 
-	return entity.NewMergeUpdatedStatus(id, localEntity)
+	return entity.NewMergeUpdatedStatus(id, mergedEntity)
 }
 
 // Remove delete an Entity.
